@@ -229,7 +229,7 @@ def decide(fname, lines, cand, idx):
 def main():
     args = sys.argv[1:]
     fname = args[0]
-    opt = {"--n": "40", "--seed": "1", "--jobs": "4", "--out": "", "--only": "", "--lines": ""}
+    opt = {"--n": "40", "--seed": "1", "--jobs": "4", "--out": "", "--only": "", "--lines": "", "--retest": ""}
     for i, a in enumerate(args):
         if a in opt:
             opt[a] = args[i + 1]
@@ -239,6 +239,10 @@ def main():
     if opt["--lines"]:
         lo, hi = map(int, opt["--lines"].split("-"))
         cands = [c for c in cands if lo <= c[1] + 1 <= hi]
+    if opt["--retest"]:
+        # only the candidates listed (as survivors) in an earlier result file
+        want = {(r["line"], r["kind"], r["what"]) for r in json.load(open(opt["--retest"])) if r["file"] == fname}
+        cands = [c for c in cands if (c[1] + 1, c[0], c[3]) in want]
     rng = random.Random(int(opt["--seed"]))
     rng.shuffle(cands)
     cands = cands[:int(opt["--n"])]
